@@ -36,13 +36,13 @@ func init() {
 }
 
 type fstate struct {
-	Verb                        rune
+	Verb                         rune
 	Plus, Minus, Sharp, Sp, Zero bool
-	Wid, Prec                   int
-	WidOK, PrecOK               bool
-	JustV                       bool
-	Fmt                         string
-	Called                      bool
+	Wid, Prec                    int
+	WidOK, PrecOK                bool
+	JustV                        bool
+	Fmt                          string
+	Called                       bool
 }
 
 func (s fstate) key() string {
